@@ -22,6 +22,11 @@ impl RingBuffer {
     }
 
     fn write_size(&self) -> usize {
+        if self.buffer.is_empty() {
+            // A ring of size 0 cannot store anything (the subtraction below would underflow)
+            return 0;
+        }
+
         if self.producer < self.consumer {
             return self.consumer - self.producer - 1;
         }
